@@ -64,7 +64,8 @@ static bool tg_some_piece_bound_exceeds() {
 // Box<native integer>: the product coefficient * bound inside propagate_constraint_no_check overflows with an
 // "unknown" result (sub_mul_assign_r -> NaN), which propagate_constraint_check_result() does not expect: PPL_UNREACHABLE
 static bool tg_is_crash(const std::string& cl) { return cl == "crash:SIGSEGV" || cl == "crash:SIGILL" || cl == "crash:SIGABRT" || cl == "crash:SIGBUS"; }
-static bool tg_huge(const Q& v) { return BT<BTy>::bits > 0 && !BT<BTy>::is_float && abs(v) >= pow2(BT<BTy>::bits - 2); }
+// (coefficients of the menus are at most 3 in absolute value: a bound of magnitude >= 2^(bits-3) can overflow when multiplied)
+static bool tg_huge(const Q& v) { return BT<BTy>::bits > 0 && !BT<BTy>::is_float && abs(v) >= pow2(BT<BTy>::bits - 3); }
 static bool tg_box_has_huge_bound(const Cell& c) {
   if (c.bot) return true;        // empty but unmarked: the interval bounds are invisible in the class
   for (int k = 0; k < c.n; ++k) { ref::Sup lo = tg_inf(c, k), hi = tg_sup(c, k); if ((lo.status == 1 && tg_huge(lo.value)) || (hi.status == 1 && tg_huge(hi.value))) return true; }
@@ -74,7 +75,7 @@ static bool tg_box_has_huge_bound(const Cell& c) {
 static std::string auto_trigger(const std::string& cl) {
   if (KIND == K_BOX && BT<BTy>::bits > 0 && !BT<BTy>::is_float && tg_is_crash(cl) && CUR_OP && CUR_CLS >= 0) {
     const std::string& f = CUR_OP->args.fam;
-    if ((f == "refine" || f == "genlhs" || f == "genvar" || tg_starts(CUR_OP->name, "refine_with_constraints") || tg_starts(CUR_OP->name, "bounded_affine_image")) && tg_box_has_huge_bound(CL[CUR_CLS]))
+    if ((f == "refine" || f == "genlhs" || f == "genvar" || tg_starts(CUR_OP->name, "refine_with_constraints") || tg_starts(CUR_OP->name, "refine_with_congruence") || tg_starts(CUR_OP->name, "bounded_affine_image")) && tg_box_has_huge_bound(CL[CUR_CLS]))
       return "propagated_product_overflows_bound_type";
   }
   if (!EXACT_T) {
